@@ -289,6 +289,7 @@ pub fn judge(fx: &Fixture, quit_at: Option<usize>, o: &Outcome) -> Option<String
         Some(Abort::Deadlock) => return Some("deadlock: no enabled worker, not all workers exited".into()),
         Some(Abort::Horizon) => return Some(format!("livelock: more than {} scheduling steps", HORIZON)),
         Some(Abort::Diverged) => machinery_error("C07: replay diverged (choice out of range) — harness lost determinism"),
+        Some(Abort::Panicked) => return Some("a worker panicked during the walk".into()),
         None => {}
     }
     if o.panicked {
